@@ -16,6 +16,7 @@ func main() {
 	n := flag.Int("n", 10, "number of histories")
 	ops := flag.Int("ops", 60, "operations per history")
 	outp := flag.String("out", "-", "trace file")
+	histseed := flag.Int64("histseed", 0, "run exactly one history with this history seed (replay)")
 	flag.Parse()
 	w := os.Stdout
 	if *outp != "-" {
@@ -32,6 +33,12 @@ func main() {
 		os.Exit(2)
 	}
 	rec := sim.NewRecorder(w, p.Mods)
+	if *histseed != 0 {
+		c := p.Run(*histseed, rec, *ops)
+		rec.Note(sim.D{"k": "endhistory", "seed": *histseed, "halted": c.Halted})
+		rec.Flush()
+		return
+	}
 	for i := 0; i < *n; i++ {
 		hseed := *seed*1000003 + int64(i)
 		c := p.Run(hseed, rec, *ops)
